@@ -77,11 +77,24 @@ def one_run(cmd, base, prog, flags, env=None, prep=None, cwd_removed=False, tmo=
     if env: e.update(env)
     cwd = d
     arg = prog + ".as"
-    if cwd_removed:
+    argv = cmd + flags
+    root = d
+    tmpfs_kb = cwd_removed[1] if isinstance(cwd_removed, tuple) else None
+    if tmpfs_kb:
+        # a real device of tmpfs_kb KiB: the compiler runs in a private mount namespace with a small tmpfs as
+        # working directory (the source lies outside); what it left there is copied out before the namespace ends
+        cwd = os.path.join(d, "work"); os.mkdir(cwd)
+        root = os.path.join(d, "saved")
+        arg = src
+        argv = ["unshare", "-rm", "sh", "-c",
+                'mount -t tmpfs -o size=%dk tmpfs "$0" && cd "$0" || exit 97; "$@"; rc=$?; cp -r . "$0/../saved"; exit $rc' % tmpfs_kb,
+                cwd] + argv
+        cwd_removed = False
+    elif cwd_removed:
         cwd = os.path.join(d, "gone"); os.mkdir(cwd)
         arg = src
     try:
-        p = subprocess.Popen(cmd + flags + [arg], cwd=cwd, stdout=subprocess.PIPE, stderr=subprocess.PIPE, env=e,
+        p = subprocess.Popen(argv + [arg], cwd=cwd, stdout=subprocess.PIPE, stderr=subprocess.PIPE, env=e,
                              start_new_session=True, preexec_fn=(lambda: os.rmdir(cwd)) if cwd_removed else None)
         try:
             out, err = p.communicate(timeout=tmo); rc = p.returncode
@@ -91,7 +104,7 @@ def one_run(cmd, base, prog, flags, env=None, prep=None, cwd_removed=False, tmo=
             out, err = p.communicate(); rc = "TIMEOUT"
     except Exception as ex:
         rc, out, err = "EXC", b"", repr(ex).encode()
-    files = tree_hashes(d, skip=(prog + ".as", "faultio.log"))
+    files = tree_hashes(root, skip=(prog + ".as", "faultio.log")) if os.path.isdir(root) else {}
     log = ""
     lp = os.path.join(d, "faultio.log")
     if os.path.exists(lp): log = open(lp).read()
@@ -143,6 +156,14 @@ def site_report(ctx, build):
     ctx.cov["emit_sites"] = st
     return rows
 
+def tmpfs_works(base):
+    """can an unprivileged mount namespace with a small tmpfs be made here?"""
+    d = tempfile.mkdtemp(dir=base)
+    rc, out, err = common.run(["unshare", "-rm", "sh", "-c",
+                               'mount -t tmpfs -o size=4k tmpfs "$0" && cd "$0" && (head -c 9000 /dev/zero > x; test $? -ne 0)', d], timeout=30)
+    shutil.rmtree(d, ignore_errors=True)
+    return rc == 0
+
 def build_shim(base):
     so = os.path.join(base, "faultio.so")
     rc, out, err = common.run(["gcc", "-shared", "-fPIC", "-O1", "-w", "-o", so, os.path.join(VERIF, "harness", "faultio.c"), "-ldl"])
@@ -157,6 +178,8 @@ def run_part(ctx, build):
     base = common.scratch("aldor-verif-c18-")
     cmd = aldor_cmd(build)
     so = build_shim(base)
+    have_tmpfs = tmpfs_works(base)
+    ctx.cov["emit_tmpfs"] = "unshare -rm + tmpfs available" if have_tmpfs else "not available here: tmpfs-mid skipped (space-mid by the shim still runs)"
     progs = ["hello", "counter"]
     # 1. intact runs (with the shim loaded and logging, so that the operations can be counted)
     intact = {}
@@ -208,6 +231,19 @@ def run_part(ctx, build):
             for nm, n in sorted(picks):
                 fjobs.append((prog, k, nm, ["-F" + k], shim("write", n, False), None, False))
             fjobs.append((prog, k, "write-sticky", ["-F" + k], shim("write", max(1, w // 3), True), None, False))
+        # the device fills up in the middle of the output: writes beyond half of the intact size fail, a later
+        # rewrite of the beginning (the .ao header, rewritten at offset 0 on close) succeeds
+        size = max(int(v.rsplit(":", 1)[1]) for v in info["files"].values())
+        if size >= 2:
+            fjobs.append((prog, k, "space-mid", ["-F" + k],
+                          {"LD_PRELOAD": so, "FAULTIO_PATTERN": prog, "FAULTIO_OP": "space", "FAULTIO_LIMIT": str(size // 2)},
+                          None, False))
+            fjobs.append((prog, k, "space-tail", ["-F" + k],
+                          {"LD_PRELOAD": so, "FAULTIO_PATTERN": prog, "FAULTIO_OP": "space", "FAULTIO_LIMIT": str(size - 1)},
+                          None, False))
+        if have_tmpfs and size > 4096:
+            # the same on a real file system: a tmpfs of about half the intact size (whole 4 KiB pages)
+            fjobs.append((prog, k, "tmpfs-mid", ["-F" + k], None, None, ("tmpfs", 4 * max(1, size // 2 // 4096))))
         if ops["flush"] >= 1:
             fl = ops["flush"]
             for nm, n in sorted({("flush-first", 1), ("flush-mid", max(1, fl // 2)), ("flush-last", fl)}):
@@ -273,7 +309,9 @@ def run_part(ctx, build):
                            "dishonest": sorted("%s|%s|%s" % k for k in dishonest),
                            "ops_intact": {"%s:%s" % k: v["ops"] for k, v in intact.items() if v["ops"]},
                            "rule": "kinds %s x programs %s x {target /dev/full, target is a directory, working directory removed, "
-                                   "n-th fclose, first/middle/last (thorough: random) write call, sticky write failure, fflush (ao)} "
+                                   "n-th fclose, first/middle/last (thorough: random) write call, sticky write failure, fflush (ao), "
+                                   "device full beyond half / all but the last byte of the file with rewrites of the beginning succeeding "
+                                   "(shim `space`, and a real half-size tmpfs in a private mount namespace)} "
                                    "+ four outputs at once with the fault on each in turn" % (KINDS, progs)}
     ctx.cov["evaluations"] += len(fjobs) + 2 * len(jobs)
     ctx.cov["distinct_nontrivial"] += sum(len(v) for v in hist.values())
